@@ -80,3 +80,37 @@ Definition run_raw (G : rgraph) : tok :=
                tlist tstrN (node_labels (bg_rxns B));
                tmat (fill Reactant B); tmat (fill Product B); tmat (build_S_nodes B) ]
   end.
+
+(** * Undirected inputs (conversion.py:_as_bipartite on an nx.Graph): every stored edge (u, v) is oriented by its role
+
+      u_is_rxn = kind(u) == "reaction" or (kind(u) is None and bipartite(u) == 1)
+      s, r = (v, u) if u_is_rxn else (u, v);   a, b = (r, s) if role == "product" else (s, r);   D.add_edge(a, b, **data)
+
+    and the resulting DiGraph goes through the attribute layer above.  ([rn_kind] = None stands for an ABSENT kind here: the
+    undirected cases carry no foreign attribute values.)  An undirected simple graph holds one edge per node pair: no two
+    incidences are merged. *)
+Definition u_is_rxn (n : rnode) : bool :=
+  is_some_false (rn_kind n) || (match rn_kind n with None => true | Some _ => false end && is_some_false (rn_flag n)).
+
+Definition orient_redge (G : rgraph) (e : redge) : redge :=
+  let rxn_first := match find_node G (re_u e) with Some n => u_is_rxn n | None => false end in
+  let s := if rxn_first then re_v e else re_u e in
+  let r := if rxn_first then re_u e else re_v e in
+  match re_role e with
+  | Some Product => REdge r s (re_role e) (re_stoich e)
+  | _ => REdge s r (re_role e) (re_stoich e)
+  end.
+
+Definition orient_raw (G : rgraph) : rgraph := RG (rg_nodes G) (map (orient_redge G) (rg_edges G)).
+
+(** an undirected graph stores each edge in SOME direction: [flips] says which edges of the directed graph are stored reversed *)
+Definition flip_redge (b : bool) (e : redge) : redge := if b then REdge (re_v e) (re_u e) (re_role e) (re_stoich e) else e.
+Fixpoint stored (flips : list bool) (es : list redge) : list redge :=
+  match es, flips with
+  | e :: es', b :: flips' => flip_redge b e :: stored flips' es'
+  | e :: es', [] => e :: stored [] es'
+  | [], _ => []
+  end.
+Definition undirected_raw (flips : list bool) (G : rgraph) : rgraph := RG (rg_nodes G) (stored flips (rg_edges G)).
+
+Definition run_raw_und (G : rgraph) : tok := run_raw (orient_raw G).
